@@ -291,3 +291,47 @@ def hier_design(rng, kinds=None):
 def _uniq(plan, prefix):
     """G.build names internal wires '<node name>_o<k>'; node names are already prefixed"""
     return plan
+
+
+# ------------------------------------------------------------------------------------------------------------------
+# every arithmetic / logic / sequential library block at sampled legal parameters, re-using the block tables of the
+# C07 / C08 / C09 harnesses (constructor closures taking a parent), placed inside a structural Top with ports
+_C07_FAM = None
+
+
+def _top_with(hw, inw, outw, ctor_call, kind):
+    Top = top_class()
+    top = Top(hw, 'top')
+    ins = {f'i{k}': hw.wire(f'i{k}', w) for k, w in enumerate(inw)}
+    outs = {f'o{k}': hw.wire(f'o{k}', w) for k, w in enumerate(outw)}
+    for n, w in ins.items():
+        top.addIn(n, w)
+    for n, w in outs.items():
+        top.addOut(n, w)
+    ctor_call(top, list(ins.values()), list(outs.values()))
+    return dict(hw=hw, top=top, inputs=ins, outputs=outs, kind=kind)
+
+
+def c07_design(rng):
+    """one arithmetic block (Add/Sub/Signed*/Neg/Abs/Sign/extends/Mul/Div/Mod/SignedDiv/shifts/rotates/CLZ/BCD) inside a Top"""
+    import py4hw, c07
+    global _C07_FAM
+    if _C07_FAM is None:
+        _C07_FAM = [(b, p) for b, p, _ in c07.param_families('quick', Rng(12345))]
+    blk, p = rng.choice(_C07_FAM)
+    inw, outw, ctor = c07.block_def(blk, p)
+    hw = py4hw.HWSystem()
+    d = _top_with(hw, inw, outw, lambda top, i, o: ctor(top, i, o), f'c07:{blk}')
+    d['desc'] = dict(block=blk, params=list(p), input_widths=inw, output_widths=outw)
+    d['nondet_div'] = blk in ('Div', 'Mod', 'SignedDiv')
+    return d
+
+
+def c08_design(rng):
+    """one logic / selection / comparison block inside a Top"""
+    import py4hw, c08
+    case = c08.random_case(rng, rng.choice([4, 8, 16]))
+    hw = py4hw.HWSystem()
+    d = _top_with(hw, case.inw, case.outw, lambda top, i, o: case.ctor(py4hw, top, i, o), f'c08:{case.real}')
+    d['desc'] = case.summary()
+    return d
